@@ -5,7 +5,7 @@
 # modelled files.  Usage: tools/coverage.sh [out-dir]   (default /verif/work/coverage)
 set -u
 OUT=${1:-/verif/work/coverage}
-rm -rf "$OUT"; mkdir -p "$OUT/prof" "$OUT/run"
+rm -rf "$OUT"; mkdir -p "$OUT/prof" "$OUT/run/k" "$OUT/run/t" "$OUT/run/x"
 BIN=$(dirname "$(rustup +nightly which rustc)")/../lib/rustlib/x86_64-unknown-linux-gnu/bin
 export CARGO_NET_OFFLINE=true RUSTFLAGS="-C instrument-coverage" CARGO_TARGET_DIR=/verif/harness/target/cov
 # build scripts and proc macros are instrumented too: keep their profiles out of /repo
